@@ -3,8 +3,9 @@
     [Print Assumptions].  The pixel codecs are parameters; the only thing assumed
     of them is [codec_dims_from_header] (stated in the theorem). *)
 From Coq Require Import List ZArith.
-From Webp Require Import Base.Res Base.Bytes Riff.ParserModel Riff.FeaturesModel Riff.PrefixProofs
-     Riff.FeaturesProofs.
+From Webp Require Import Base.Res Base.Bytes Riff.ParserModel Riff.ParserSpec Riff.FeaturesModel
+     Riff.PrefixProofs Riff.FeaturesProofs Riff.MetadataProofs Riff.ParserSpecProofs Riff.WriterModel
+     Riff.WriterTheorems.
 Import ListNotations.
 Open Scope Z_scope.
 
@@ -50,6 +51,40 @@ Theorem C16_still_shape : forall fx bs r, parse_ex fx bs = Ok (r, KStill) ->
   fHasAnim (pFeat r) = false /\ 1 <= fFormat (pFeat r) <= 3.
 Proof. exact still_shape. Qed.
 Print Assumptions C16_still_shape.
+
+(** Alpha flag, files written by this package's RIFF writer: whenever the Decode
+    glue attaches a separately decoded alpha plane to the picture (the only way a
+    lossy picture gets a non-opaque pixel), GetFeatures reports HasAlpha. *)
+Theorem C16_alpha_flag_sound_lossy :
+  forall (Pix : Type) (ld ll : list Z -> Res (Z * Z * Pix)) (ad : list Z -> Z -> Z -> Res Pix)
+         fourcc bs alpha w h icc exif xmp a fx file img,
+    writer_inputs_ok fourcc bs alpha w h icc exif xmp a -> len icc <= MaxMetadataSize ->
+    write_riff fourcc bs alpha w h icc exif xmp = Ok file ->
+    decode_bytes ld ll ad fx file = Ok img -> iAlpha img <> None ->
+    exists g, get_features fx file = Ok g /\ gHasAlpha g = true.
+Proof. exact alpha_flag_sound_lossy. Qed.
+Print Assumptions C16_alpha_flag_sound_lossy.
+
+(** Specification view vs parser view: every byte file (up to the metadata cap)
+    that the specification-side RIFF walker judges a well-formed still -- sizes,
+    padding, chunk order, flags = chunks present, canvas = image size; any blobs,
+    also an ALPH chunk with an empty payload -- is accepted by the parser (either
+    variant) as a still whose single frame holds exactly the image and ALPH
+    payloads the walker finds, with width/height = canvas = the size the bitstream
+    header declares, and no animation flag. *)
+Theorem C16_wf_still_accepted :
+  forall fx file,
+    bytes_ok file -> len file <= MaxMetadataSize -> riff_wf file = true ->
+    exists r f id w h a,
+      parse_ex fx file = Ok (r, KStill) /\ pFrames r = [f] /\
+      image_fourcc id /\ frLossless f = (id =? FourCCVP8L) /\
+      spec_get_chunk file id = Some (frPayload f) /\
+      (frLossless f = false -> frAlpha f = spec_get_chunk file FourCCALPH) /\
+      image_dims id (frPayload f) = Some (w, h, a) /\
+      fWidth (pFeat r) = w /\ fHeight (pFeat r) = h /\ fCanvasW (pFeat r) = w /\ fCanvasH (pFeat r) = h /\
+      fHasAnim (pFeat r) = false.
+Proof. exact wf_still_accepted. Qed.
+Print Assumptions C16_wf_still_accepted.
 
 (** Parser-level views (GetFeatures, DecodeConfig, Parser.Features/Frames) fail
     together and agree on size, animation flag, frame count and loop count. *)
